@@ -52,6 +52,23 @@ class StubFile:
     def update_token_map(self):
         self.log.append(("update_token_map",))
 
+    def __getattr__(self, name):
+        # anything else the machinery may ask of the file object is answered by a real (empty) vhdlFile, and recorded
+        if name.startswith("__"):
+            raise AttributeError(name)
+        if "_real" not in self.__dict__:
+            from vsg import vhdlFile as _vf
+
+            self.__dict__["_real"] = _vf.vhdlFile([""])
+        attr = getattr(self.__dict__["_real"], name)
+        if callable(attr):
+            def call(*a, **k):
+                self.log.append((name,))
+                return attr(*a, **k)
+
+            return call
+        return attr
+
 
 class StubRule(rule.Rule):
     def __init__(self, eng, i, phases=(1, 7), subphases=(1, 2), max_viol=2, lines=(1, 9), sev="symbolic", sym_fixable=True, sym_disable=True, prereq=False, log=None):
